@@ -543,6 +543,24 @@ pub fn case() -> BoxedStrategy<Case> {
         .boxed()
 }
 
+/// until / since / Duration::round relative to a zoned date-time with a time smallest unit, an increment > 1 and a
+/// date largest unit: the last partial day is 23 / 25 h (or stranger) long whenever the pair straddles a transition,
+/// and a rounding that reaches that length has to be rounded again on the day after (also run by C07)
+pub fn rounding_across_days_case() -> BoxedStrategy<Case> {
+    (case(), 0usize..16, 0usize..3, proptest::sample::select(vec![U::Day, U::Day, U::Week, U::Month, U::Year]), 0i128..=2, -7_200i128..=7_200)
+        .prop_map(|(mut c, ii, oi, largest, days, wiggle)| {
+            c.op = [Op::Until, Op::Since, Op::DurRound][oi];
+            let (unit, incs): (U, &[u32]) = if ii % 4 == 3 { (U::Minute, &[2, 5, 10, 15, 20, 30]) } else { (U::Hour, &[2, 3, 4, 6, 8, 12]) };
+            c.smallest = Some(unit);
+            c.inc = incs[ii % incs.len()];
+            c.largest = LargestOpt::Unit(largest);
+            // other end: 0..2 local days later plus nearly a whole day (so that the time part is close to the day length)
+            c.t2 = (c.t1 + (days * 24 + 23) * 3_600 * S + wiggle * S).clamp(-MAX_INSTANT + 3 * DAY, MAX_INSTANT - 3 * DAY);
+            c
+        })
+        .boxed()
+}
+
 pub fn run(ctx: &mut Ctx) {
     ctx.rule = "zones as in C13 (fixed offsets, synthetic rule tables with shifts from 1 minute to 26 h, tables shaped like New York / Lord Howe / Apia / Dublin / Kolkata / Kiritimati) served through the harness provider, plus every real IANA zone end to end through the crate's bundled provider (oracle table = the zone's listed TZif transitions read by the harness's own reader; instants at least 8 years before the end of the table); instants within +-2 days of a transition (edges +-1 ns) paired with a second instant 0 ns .. decades away in both orders; ops: add/subtract (date units on the wall clock re-resolved compatible, time units exact), until/since with time largest units (exact elapsed, rounded) and date largest units (reference DifferenceZonedDateTime + RoundRelativeDuration on the rule table, plus oracle-free laws: sign-uniform, receiver.add(result) == other, time part shorter than a local day), start_of_day, hours_in_day (whole-hour days; fractional-hour days executed but unjudged because the API returns an integer), with_plain_time, date-only strings, Duration round/total/compare relative to a ZonedDateTime. non-trivial = the pair straddles a transition, the local day is not 24 h, or negative direction with reversed time-of-day order.".into();
     ctx.assumptions = vec![
@@ -550,6 +568,7 @@ pub fn run(ctx: &mut Ctx) {
         "rule sets for which the specification's own day-correction loop does not converge are unjudged (counted)".into(),
     ];
     ctx.run_prop(&Sub, &case, ctx.tier.pick(500_000, 15_000_000));
+    ctx.run_prop(&Sub, &rounding_across_days_case, ctx.tier.pick(100_000, 3_000_000));
 }
 
 pub fn replay(ctx: &mut Ctx, sub: &str, case: &Value) -> bool {
